@@ -164,7 +164,7 @@ func pgScripts(g *gen.Rand) []script {
 	authSeq := catArts("auth-sequence", pgAuthOK(), pgParamStatus("server_version", "14.1"), pgParamStatus("client_encoding", "UTF8"),
 		pgMsg('K', nb("backendkey").be32("pid", 4242).be32("key", 99).art()), pgReady('I'))
 	startup := pgStartup("user", "test", "database", "db", "application_name", "verif")
-	simple := script{"simple", []segArt{
+	simple := script{name: "simple", segs: []segArt{
 		{'C', "startup", startup}, {'D', "auth", authSeq},
 		{'C', "query-select", pgQuery("select " + selectList + " from t where search_ab = 'needle' and id = 5")},
 		{'D', "select-response", catArts("select-response", pgRowDescription(colsFmt(0)), textRows, pgCommandComplete("SELECT 2"), pgReady('I'))},
@@ -177,7 +177,7 @@ func pgScripts(g *gen.Rand) []script {
 	extSel := "select " + selectList + " from t where id = $1 and search_ab = $2"
 	extIns := "insert into t (id, plain_ab, search_ab, tok_str, tok_i32, tok_email) values ($1, $2, $3, $4, $5, $6)"
 	extended := func(name string, rfmt uint16, rows art) script {
-		return script{name, []segArt{
+		return script{name: name, segs: []segArt{
 			{'C', "startup", startup}, {'D', "auth", authSeq},
 			{'C', "parse-describe-sync", catArts("parse-describe-sync", pgParse("s1", extSel, 23, 17), pgDescribe('S', "s1"), pgEmpty('S', "sync"))},
 			{'D', "parse-response", catArts("parse-response", pgEmpty('1', "parsecomplete"), pgParamDescription(23, 17), pgRowDescription(colsFmt(0)), pgReady('I'))},
@@ -195,12 +195,12 @@ func pgScripts(g *gen.Rand) []script {
 			{'C', "terminate", pgEmpty('X', "terminate")},
 		}}
 	}
-	special := script{"special-startup", []segArt{
+	special := script{name: "special-startup", rare: true, segs: []segArt{
 		{'C', "sslrequest", pgSpecialStartup(80877103, nil)}, {'D', "ssl-deny", art{kind: "ssl-deny", b: []byte{'N'}, f: []fld{{name: "answer", off: 0, w: 1}}}},
 		{'C', "startup", startup}, {'D', "auth", authSeq},
 		{'C', "query", pgQuery("select 1")}, {'D', "resp", catArts("resp", pgCommandComplete("SELECT 1"), pgReady('I'))},
 	}}
-	cancel := script{"cancel", []segArt{{'C', "cancelrequest", pgSpecialStartup(80877102, encInt(0x0000106200000063, 8, true))}, {'D', "nothing", art{kind: "empty"}}}}
+	cancel := script{name: "cancel", segs: []segArt{{'C', "cancelrequest", pgSpecialStartup(80877102, encInt(0x0000106200000063, 8, true))}, {'D', "nothing", art{kind: "empty"}}}}
 	return []script{simple, extended("extended-text", 0, textRows), extended("extended-binary", 1, binRows), special, cancel}
 }
 
